@@ -683,9 +683,33 @@ class Interp(object):
             self.depth -= 1
 
     def call_funct(self, f, args):
+        """Function literals "have access to local variables defined in their enclosing scope" (reference-dsl-user-defined-functions.md):
+        the body runs in a new frame on top of the current scope (the literal is called where it was written), not in a fenced-off one."""
         if not isinstance(f, Funct):
             raise Unmodelled("calling a non-function")
-        return self.invoke([(p, None) for p in f.params], None, f.block, args, "function literal", is_func=True)
+        if len(f.params) != len(args):
+            raise Unmodelled("arity of a function literal")
+        self.depth += 1
+        if self.depth > 40:
+            raise Unmodelled("recursion too deep")
+        self.scope.push()
+        try:
+            for pn, a in zip(f.params, args):
+                if a is ERROR:
+                    raise Unmodelled("error value passed as argument")
+                self.scope.frames[-1][pn] = [None, copyv(a), True]
+            try:
+                self.exec_block(f.block, new_frame=True)
+            except _Return as r:
+                if r.value is None:
+                    raise Unmodelled("bare return in a function literal")
+                return copyv(r.value)
+            except (_Break, _Continue):
+                raise Unmodelled("break/continue escaping a function literal")
+            return ABSENT
+        finally:
+            self.scope.pop()
+            self.depth -= 1
 
     def builtin(self, name, a):
         if any(x is ERROR for x in a) and name not in ("typeof", "is_error", "is_absent", "is_present"):
